@@ -10,7 +10,7 @@
 
      parse_blocks_ok_or_rem   parse_blocks o x = Ok r, or Panic s with s in rem_sites — every input, every option set
 
-   rem_sites is the exact list of the Panic sites not yet excluded (36 strings, pinned in Props/Blocks.v). *)
+   rem_sites is the exact list of the Panic sites not yet excluded (35 strings, pinned in Props/Blocks.v). *)
 From Coq Require Import List NArith Arith Bool Lia Strings.String.
 From V Require Import Base.Bytes Base.Res Gen.Nodes Gen.BlocksConst Gen.FeedConst Model.Ast Model.Strings Model.Entity Model.LinkUrl Model.ListMarker
   Model.Feed Model.FrontMatter Model.RefDef Model.Scan Model.Blocks Spec.EscapeSpec
@@ -58,7 +58,6 @@ Definition rem_sites : list string :=
     "table.rs:try_opening_header:content.len() - 2 - header_row.paragraph_offset";
     "table.rs:try_opening_row:sourcepos.start.column + cell.start_offset - 1";
     "inlines.rs:peek_char_n:assert!(*c > 0)";
-    "strings.rs:line_at:bytes[end..]";
     (* leaf functions whose unconditional totality is refuted (Props/StrLeaf.v) *)
     "strings.rs:remove_trailing_blank_lines:line.len() - 1";
     "strings.rs:chop_trailing_hashtags:line.len() - 1";
@@ -125,13 +124,35 @@ Lemma scan_link_title_ge s m : scan_link_title s = Some m -> 2 <= m.
 Proof. BlocksTotal4Scan.scan_ge. Qed.
 Lemma scan_link_title_le s m : scan_link_title s = Some m -> m <= List.length s.
 Proof. intro H. eapply as_opt_usize_cursor_le; [|exact H]. vm_compute. reflexivity. Qed.
-Lemma ngo_fm_line_at s k : ngo (fm_line_at s k). Proof. unfold fm_line_at, fm_slice, byte_slice_from. nggo. Qed.
-#[export] Hint Resolve ngo_fm_line_at : ngo.
-Lemma ngo_find_closing_line : forall fuel s d e, ngo (find_closing_line fuel s d e).
-Proof. induction fuel as [|f IH]; intros s d e; cbn [find_closing_line]; nggo. Qed.
-#[export] Hint Resolve ngo_find_closing_line : ngo.
+(* line_at: bytes[end..] is inside the string as long as the start is; split_off_front_matter starts at 0 and goes on
+   from the `next` of the line before *)
+Lemma sgo_fm_line_at s k : k <= List.length s -> sg alo true (fun r => snd r <= List.length s) (fm_line_at s k).
+Proof.
+  intro H. unfold fm_line_at. pose proof (BlocksTotal4Fuel.scan_line_end_bounds (skipn k s) k) as B. rewrite skipn_length in B.
+  set (e := scan_line_end (skipn k s) k) in *. unfold byte_slice_from.
+  destruct (Nat.leb e (List.length s)) eqn:L; [|apply Nat.leb_gt in L; lia]. apply Nat.leb_le in L. cbn [bind].
+  unfold fm_slice. destruct (_ && _ && _); [cbn [bind sg snd] | allowed].
+  destruct (starts_with (skipn e s) fm_crlf) eqn:Sw.
+  - apply starts_with_app in Sw. destruct Sw as [r Er]. apply (f_equal (@List.length byte)) in Er.
+    rewrite skipn_length, app_length in Er. change (List.length fm_crlf) with 2 in Er. lia.
+  - destruct (Nat.ltb e (List.length s)) eqn:Lt; [apply Nat.ltb_lt in Lt; lia | lia].
+Qed.
+Lemma sgo_find_closing_line : forall fuel s d e, e <= List.length s ->
+  sg alo true (fun c => match c with Some e' => e' <= List.length s | None => True end) (find_closing_line fuel s d e).
+Proof.
+  induction fuel as [|f IH]; intros s d e H; cbn [find_closing_line]; [reflexivity|].
+  destruct (Nat.eqb e (List.length s)); [exact I|].
+  eapply sg_bind; [now apply sgo_fm_line_at|]. intros ln _ Hn.
+  destruct (bytes_eqb (fst ln) d); [exact Hn | now apply IH].
+Qed.
 Lemma ngo_split_off_front_matter s d : ngo (split_off_front_matter s d).
-Proof. unfold split_off_front_matter, slice_to, FrontMatter.slice_from. nggo. Qed.
+Proof.
+  unfold split_off_front_matter, slice_to, FrontMatter.slice_from.
+  eapply sg_bind; [apply sgo_fm_line_at; lia|]. intros l0 _ H0.
+  destruct (_ || _); [exact I|].
+  eapply sg_bind; [now apply sgo_find_closing_line|]. intros [e|] _ He; [|exact I].
+  eapply sg_bind; [now apply sgo_fm_line_at|]. intros l1 _ _. cbv zeta. match goal with |- sg ?a ?f _ ?r => change (ng a f r) end. nggo.
+Qed.
 #[export] Hint Resolve ngo_split_off_front_matter : ngo.
 Lemma ngo_peek s p : ngo (peek s p). Proof. unfold peek. nggo. Qed.
 #[export] Hint Resolve ngo_peek : ngo.
